@@ -390,6 +390,49 @@ fn gen_node(
 	GNode { data, children }
 }
 
+fn ctr_inc_mass(ctr: &mut Counters) {
+	ctr.inc("cases.mass_sharing");
+}
+
+/// root -> 2..3 inner nodes -> 150..255 children each: new leaves with small data when `live` is
+/// empty, otherwise DISTINCT existing nodes of live trees (as many as there are).
+fn mass_tree(rng: &mut Rng, vals: &mut Values, live: &[usize], st: &mut GenStats) -> GNode {
+	let inner = rng.range(2, 3) as usize;
+	let mut pool: Vec<usize> = live.to_vec();
+	// seeded shuffle
+	for i in (1..pool.len()).rev() {
+		let j = rng.below(i as u64 + 1) as usize;
+		pool.swap(i, j);
+	}
+	let mut children = vec![];
+	for _ in 0..inner {
+		let fan = rng.range(150, 255) as usize;
+		let mut ch = vec![];
+		for _ in 0..fan {
+			if live.is_empty() {
+				let len = rng.range(1, 40);
+				ch.push(GRef::New(GNode { data: vals.canon(format!("v{}_{}", len, rng.below(1 << 30))), children: vec![] }));
+				st.new_nodes += 1;
+				st.expanded += 1;
+			} else if let Some(id) = pool.pop() {
+				ch.push(GRef::Existing(id));
+				st.existing += 1;
+				st.expanded += 1;
+			}
+		}
+		st.max_fan = std::cmp::max(st.max_fan, ch.len());
+		let len = rng.range(1, 60);
+		children.push(GRef::New(GNode { data: vals.canon(format!("v{}_{}", len, rng.below(1 << 30))), children: ch }));
+		st.new_nodes += 1;
+		st.expanded += 1;
+	}
+	st.depth = 2;
+	st.new_nodes += 1;
+	st.expanded += 1;
+	let len = rng.range(1, 60);
+	GNode { data: vals.canon(format!("v{}_{}", len, rng.below(1 << 30))), children }
+}
+
 pub(crate) fn to_real(g: &GNode, forest: &Forest, vals: &mut Values) -> NewNode {
 	NewNode {
 		data: vals.bytes(&g.data),
@@ -1031,6 +1074,14 @@ pub fn run_case(seed: u64, thorough: bool, root: &Path, t: &mut Trace, ctr: &mut
 	let mut had_sharing = false;
 	let mut had_free = false;
 	let mut big_done = 0;
+	// mass sharing (one case in six, counting variants): a first tree with several hundred leaves,
+	// later trees that reference hundreds of its nodes in ONE transaction (many reference-count
+	// changes in one record, several of them in the same chunk of the ref-count table)
+	let mass = counting && rng.chance(1, 6);
+	let mut mass_stage = 0;
+	if mass {
+		ctr_inc_mass(c.ctr);
+	}
 
 	for _step in 0..nact {
 		let a = rng.below(100);
@@ -1071,7 +1122,19 @@ pub fn run_case(seed: u64, thorough: bool, root: &Path, t: &mut Trace, ctr: &mut
 			let fan_mode = rng.below(3);
 			// the wide node sits at the root or one level down
 			let mut used = HashMap::new();
-			let g = if wide.is_some() && rng.chance(1, 2) {
+			let mass_g = if mass && !too_wide && mass_stage == 0 {
+				mass_stage = 1;
+				Some(mass_tree(&mut rng, &mut c.vals, &[], &mut st))
+			} else if mass && !too_wide && mass_stage >= 1 && live.len() >= 150 && rng.chance(1, 2) {
+				mass_stage += 1;
+				Some(mass_tree(&mut rng, &mut c.vals, &live, &mut st))
+			} else {
+				None
+			};
+			let g = if let Some(g) = mass_g {
+				wide = None;
+				g
+			} else if wide.is_some() && rng.chance(1, 2) {
 				let mut inner_wide = wide.take();
 				let mut g = gen_node(&mut rng, &mut c.vals, &c.forest, &live, 1, &mut budget, 2, &mut None, &mut st, 0, &mut used);
 				let child = gen_node(&mut rng, &mut c.vals, &c.forest, &live, 1, &mut budget, 0, &mut inner_wide, &mut st, 1, &mut used);
